@@ -585,7 +585,7 @@ void exec_op(world& w, const json& op)
                 auto g = [&](const char* what, std::function<json()> fn) {
                     json v;
                     auto oc = vh::guarded(what, [&] { v = fn(); });
-                    p[what] = oc.ok ? json("ok") : json({{"throw", oc.ex}, {"std", oc.std_exc}});
+                    p[what] = json({{"ok", oc.ok}, {"ex", oc.ex}, {"std", oc.ok || oc.std_exc}});
                 };
                 g("is_valid", [&] { return json(c.is_valid()); });
                 g("id", [&] { return json(c.id()); });
